@@ -77,6 +77,11 @@ MustReject(e, home, marker) ==
   \/ home # "a" /\ e.unexp
   \/ marker = "Value" /\ e.iface
   \/ marker = "InterfaceValue:Big" /\ e.go # "@HeldBig"        \* only HeldBig implements Big (ST has Meth only, Small lacks B)
+\* the documentation excludes function calls, channel receives and references to unexported identifiers of other packages -
+\* nothing else; function literals are refused by Wire today ("too complex") and are left open here, every other call-free
+\* expression must be accepted (C10: well-formed programs are accepted)
+HasSub(str, sub) == \E i \in 1..(Len(str) - Len(sub) + 1) : SubSeq(str, i, i + Len(sub) - 1) = sub
+MustAccept(e, home, marker) == ~MustReject(e, home, marker) /\ marker # "InterfaceValue:Big" /\ ~HasSub(e.go, "func() int {")
 RejectReason(e, home, marker) == IF e.calls \/ (marker = "Value" /\ e.iface) THEN "sig" ELSE "value-access"
 
 ValProg(e, home, marker, d) ==
@@ -99,7 +104,7 @@ CaseE(P) ==
   LET v == P.value
       mr == MustReject(v.e, v.home, v.marker)
   IN [key |-> P.key, fam |-> "E", prog |-> P,
-      expect |-> <<[inj |-> "Inject", verdict |-> IF mr THEN "no" ELSE "free",
+      expect |-> <<[inj |-> "Inject", verdict |-> IF mr THEN "no" ELSE IF MustAccept(v.e, v.home, v.marker) THEN "yes" ELSE "free",
                     reasons |-> IF mr THEN {RejectReason(v.e, v.home, v.marker)} ELSE {},
                     ambiguous |-> {}, cyclic |-> {}, missing |-> {}, unused |-> {}, funcs |-> {}, wiring |-> [t \in {} |-> 0], scheds |-> <<>>]>>,
       alloc |-> v.e.alloc, invalidsets |-> {}]
